@@ -96,6 +96,9 @@ class C20(core.Prop):
                     el['ord'] = 'o%d' % el['v']
                 for ndef in (1, 2):
                     out.append({'mode': 'missing', 'g': s, 'ndef': ndef, 'symbols': '.-=' if (tier == 'quick' or n == 4) else gg.SYMBOLS})
+                if n >= 2:
+                    # history: the base graph object was resolved before with a complete fragment set (and carries what that left on it)
+                    out.append({'mode': 'missing', 'g': s, 'ndef': 1, 'symbols': '.-', 'history': 'graph_resolved_before'})
                 if n >= 3:
                     for (i, j) in gg.ring_candidates(base['parent'])[:1]:
                         t = copy.deepcopy(s)
@@ -147,7 +150,9 @@ class C20(core.Prop):
             defs = [SymStr([sym_alnum('def%d' % k)]) for k in range(shape['ndef'])]
             bodies = ['[$]C[$][$]', '[$]O[$][$]']
             frag = cat('{', *[cat('' if k == 0 else ',', '#', d, '=', bodies[k]) for k, d in enumerate(defs)], '}')
-            return {'text': cat('{', text, '}.', frag), 'holes': rec, 'defs': defs}
+            names = [rec['name'][str(e['v'])] for e in gg.elems(g['chain'])]
+            full = cat('{', *[cat('' if k == 0 else ',', '#', nm, '=', bodies[0]) for k, nm in enumerate(names)], '}')
+            return {'text': cat('{', text, '}.', frag), 'holes': rec, 'defs': defs, 'full': full}
         L = shape['len']
         ann = SymStr([sym_char('an%d' % k, allowed='qwm1.x=;') for k in range(L)])
         if shape['where'] == 'base':
@@ -162,6 +167,13 @@ class C20(core.Prop):
         if shape['mode'] == 'missing' or shape.get('where') == 'resolver':
             def run():
                 aa = shape['mode'] == 'missing'
+                if shape.get('history') == 'graph_resolved_before':
+                    from .. import pipeline as pl
+                    base, frag = pl.split_layers(inp['text'])
+                    mg = M.read_cgsmiles.read_cgsmiles(base)
+                    core.guard(lambda: M.resolve.MoleculeResolver.from_graph(inp['full'], mg, last_all_atom=True).resolve())
+                    meta, mol = M.resolve.MoleculeResolver.from_graph(frag, mg, last_all_atom=True).resolve()
+                    return [sorted(meta.nodes), len(mol) > 0]
                 meta, mol = M.resolve.MoleculeResolver.from_string(inp['text'], last_all_atom=aa).resolve()
                 return [sorted(meta.nodes), len(mol) > 0]
             return core.guard(run)
